@@ -1,9 +1,10 @@
 INIT Init
 NEXT Next
 CONSTANTS
+  RichModels = {"prims", "enums", "hier", "mixin", "rec"}
   RichDepth = 2
   BaseDepth = 3
-  NParam = 160
+  NParam = 120
   ParamDepth = 1
   MutDepth = 2
   MutStar = TRUE
